@@ -96,9 +96,12 @@ structure OGuard where
 inductive Op where
   /-- `time_source.update_instant(d)` -/
   | advance (d : Nat)
-  | startB | stopB | dropB | discardB | overwriteB
+  /-- `dropB unwinding`: the `TimerGuard` goes out of scope — normally, or (`unwinding = true`) because a
+  contained panic (`catch_unwind`) unwinds through the scope holding it. `Drop` does not look at
+  `std::thread::panicking()`: the model ignores the flag. -/
+  | startB | stopB | dropB (unwinding : Bool) | discardB | overwriteB
   /-- owned guards live in named slots `k` (a harness variable holding the `OwnedTimerGuard`) -/
-  | startO (k : Nat) | stopO (k : Nat) | dropO (k : Nat) | discardO (k : Nat) | overwriteO (k : Nat)
+  | startO (k : Nat) | stopO (k : Nat) | dropO (k : Nat) (unwinding : Bool) | discardO (k : Nat) | overwriteO (k : Nat)
   | clear
   deriving Repr, DecidableEq
 
@@ -133,7 +136,7 @@ def Impl.step (s : Impl) : Op → Option Impl
   | .stopB => s.borrowed.map fun g =>
       let (_, r, h) := g.stop s.now s.rep s.heap
       { s with rep := r, heap := h, borrowed := none }
-  | .dropB => s.borrowed.map fun g =>
+  | .dropB _ => s.borrowed.map fun g =>
       let (r, h) := g.drop s.now s.rep s.heap
       { s with rep := r, heap := h, borrowed := none }
   | .discardB => s.borrowed.map fun g =>
@@ -153,7 +156,7 @@ def Impl.step (s : Impl) : Op → Option Impl
   | .stopO k => (s.owned k).map fun og =>
       let (_, _, h) := og.g.stop s.now (.shared og.cell) s.heap
       { s with heap := h }.setOwned k none
-  | .dropO k => (s.owned k).map fun og =>
+  | .dropO k _ => (s.owned k).map fun og =>
       let (_, h) := og.g.drop s.now (.shared og.cell) s.heap
       { s with heap := h }.setOwned k none
   | .discardO k => (s.owned k).map fun og =>
@@ -234,11 +237,11 @@ guards are ignored) -/
 def Spec.step (s : Spec) : Op → Spec
   | .advance d => { s with now := s.now + d }
   | .startB => { s with bStart := some s.now }
-  | .stopB | .dropB => s.endB .kept
+  | .stopB | .dropB _ => s.endB .kept
   | .discardB => s.endB .discarded
   | .overwriteB => s.endB .overwrote
   | .startO k => { s with oStart := fun j => if j = k then some s.now else s.oStart j }
-  | .stopO k | .dropO k => s.endO k .kept
+  | .stopO k | .dropO k _ => s.endO k .kept
   | .discardO k => s.endO k .discarded
   | .overwriteO k => s.endO k .overwrote
   | .clear => { s with events := .cleared :: s.events }
